@@ -245,6 +245,13 @@ def run_conf(case, tmp):
         res = {"outs": outs, "maps": maps}
         d = tempfile.mkdtemp(prefix="conf_", dir=tmp)
         try:
+            fails = []
+            cl.rhsm_facts_file = os.path.join(d, "facts.json")
+            rep = c09.take_report(cl, cfg, d, "arch", lambda desc, kind, m, finding=None: fails.append(desc), {})
+            res["report"] = json.loads(json.dumps(rep))
+            res["report_fails"] = fails[:2]
+            check("after generate_report")
+            # the file entry point last (its effect on the databases is compared between the cleaners, not with the model)
             last = len(case["calls"]) - 1
             path = os.path.join(d, "spec")
             with open(path, "w", encoding="utf-8", newline="") as fh:
@@ -254,13 +261,8 @@ def run_conf(case, tmp):
                 res["file"] = open(path, encoding="utf-8").read() if os.path.isfile(path) else None
             except Exception as e:
                 res["file"] = "<exception %s>" % type(e).__name__
+            res["maps_after_file"] = maps_json(cl)
             check("after clean_file")
-            fails = []
-            cl.rhsm_facts_file = os.path.join(d, "facts.json")
-            rep = c09.take_report(cl, cfg, d, "arch", lambda desc, kind, m, finding=None: fails.append(desc), {})
-            res["report"] = json.loads(json.dumps(rep))
-            res["report_fails"] = fails[:2]
-            check("after generate_report")
         finally:
             shutil.rmtree(d, ignore_errors=True)
         return res
